@@ -208,13 +208,67 @@ func runC04(w *World, r *Report, tier string) {
 			r.Undecided("O3", cons, w.ipos(a.Instr), "isSecure is assigned a non-constant value")
 			continue
 		}
+		// path form of the same two gates, for tests that sit in helpers or function literals (the error travels back
+		// through their results): every path from the entry to the store has crossed such an edge
+		everyPath := func(pred func(c ssa.Value, truth bool, res func(ssa.Value) ssa.Value) bool) bool {
+			okAll, n := true, 0
+			err := walkPaths(entryLoc(fn), target, nil, 50000, func(path []ssa.Instruction, end pathEnd) {
+				if !target(path[len(path)-1]) {
+					return
+				}
+				n++
+				if !pathAsserts(path, func(c ssa.Value, truth bool) bool {
+					return pred(c, truth, func(v ssa.Value) ssa.Value { return resolveOn(v, curEdgeIdx, path) })
+				}) {
+					okAll = false
+				}
+			})
+			return err == nil && okAll && n > 0
+		}
+		resultNil := func(c ssa.Value, truth bool, res func(ssa.Value) ssa.Value, keys ...string) *ssa.Call {
+			x, eq, ok := nilCompare(c)
+			if !ok || eq != truth {
+				return nil
+			}
+			if call, _ := callResult(res(x)); call != nil {
+				for _, k := range keys {
+					if w.callKey(call) == k {
+						return call
+					}
+				}
+			}
+			return nil
+		}
 		if len(hsEdges) == 0 || reachable(entryLoc(fn), target, nil, hsEdges) {
-			r.Fail("O3", cons, w.ipos(a.Instr), "isSecure=true is reachable without passing the err==nil edge of tls.Conn.Handshake")
-			ok = false
+			if !everyPath(func(c ssa.Value, truth bool, res func(ssa.Value) ssa.Value) bool {
+				return resultNil(c, truth, res, "crypto/tls.Conn.Handshake", "crypto/tls.Conn.HandshakeContext") != nil
+			}) {
+				r.Fail("O3", cons, w.ipos(a.Instr), "isSecure=true is reachable without passing the err==nil edge of tls.Conn.Handshake")
+				ok = false
+			}
 		}
 		if len(vhEdges) == 0 || reachable(entryLoc(fn), target, nil, skipEdges.union(vhEdges)) {
-			r.Fail("O3", cons, w.ipos(a.Instr), "isSecure=true is reachable without InsecureSkipVerify and without a successful VerifyHostname")
-			ok = false
+			if !everyPath(func(c ssa.Value, truth bool, res func(ssa.Value) ssa.Value) bool {
+				if f, _ := loadedField(c); truth && f != nil && f.Name() == "InsecureSkipVerify" && f.Pkg() != nil && f.Pkg().Path() == "crypto/tls" {
+					return true
+				}
+				if call := resultNil(c, truth, res, "crypto/tls.Conn.VerifyHostname"); call != nil {
+					seen := false
+					for _, vc := range vhCalls {
+						if vc == call {
+							seen = true
+						}
+					}
+					if !seen {
+						vhCalls = append(vhCalls, call)
+					}
+					return true
+				}
+				return false
+			}) {
+				r.Fail("O3", cons, w.ipos(a.Instr), "isSecure=true is reachable without InsecureSkipVerify and without a successful VerifyHostname")
+				ok = false
+			}
 		}
 		// verified name is Config.Domain; verified conn is the handshaken conn that is stored in t.conn
 		for _, vc := range vhCalls {
@@ -231,12 +285,12 @@ func runC04(w *World, r *Report, tier string) {
 			tlsConn := vc.Call.Args[0]
 			hsSame, connSame := false, false
 			allInstrsH(fn, func(in ssa.Instruction) {
-				if c, okc := in.(*ssa.Call); okc && w.isCallTo("crypto/tls.Conn.Handshake", "crypto/tls.Conn.HandshakeContext")(in) && len(c.Call.Args) > 0 && c.Call.Args[0] == tlsConn {
+				if c, okc := in.(*ssa.Call); okc && w.isCallTo("crypto/tls.Conn.Handshake", "crypto/tls.Conn.HandshakeContext")(in) && len(c.Call.Args) > 0 && (c.Call.Args[0] == tlsConn || origin(c.Call.Args[0]) == origin(tlsConn)) {
 					hsSame = true
 				}
 				if st, oks := in.(*ssa.Store); oks {
 					if fa, okf := st.Addr.(*ssa.FieldAddr); okf && fieldOfAddr(fa) == fConn {
-						if mi, okm := originIn(fn, st.Val).(*ssa.MakeInterface); okm && mi.X == tlsConn {
+						if mi, okm := originIn(fn, st.Val).(*ssa.MakeInterface); okm && (mi.X == tlsConn || origin(mi.X) == origin(tlsConn)) {
 							connSame = true
 						}
 					}
@@ -311,7 +365,7 @@ func runC04(w *World, r *Report, tier string) {
 					if c, ok := v.(*ssa.Call); ok && len(c.Call.Args) > 0 {
 						a0 := c.Call.Args[0]
 						for k := 0; k < 6; k++ {
-							a0 = rvI(a0, i)
+							a0 = resolveOn(a0, i, path) // through helper parameters and variables a function literal captures
 							if mi, ok := a0.(*ssa.MakeInterface); ok {
 								a0 = mi.X
 							} else if ci, ok := a0.(*ssa.ChangeInterface); ok {
@@ -322,7 +376,7 @@ func runC04(w *World, r *Report, tier string) {
 						}
 						rwOK = tlsConn != nil && a0 == tlsConn
 					} else {
-						rwOK = tlsConn != nil && v == tlsConn
+						rwOK = tlsConn != nil && (v == tlsConn || resolveOn(v, i, path) == tlsConn)
 					}
 					rwVal = st.Val
 				case fDec:
